@@ -30,6 +30,11 @@ func vCornerOps() []vCorner {
 		{q: `query($f: Filter) { pets(filter: $f) { name } }`, vars: map[string]interface{}{"f": map[string]interface{}{"tags": nil}}},
 		{q: `mutation { adopt(id: "c1") { toy name } }`},
 		{q: `{ today pets { __typename } }`},
+		// values of a custom scalar may be lists and objects, with variables inside
+		{q: `query($v: Int) { search(meta: [$v]) }`, vars: map[string]interface{}{"v": 1}},
+		{q: `query($v: Int) { search(meta: {k: $v}) }`, vars: map[string]interface{}{"v": 1}},
+		{q: `{ search(meta: [1, {a: [2]}]) }`},
+		{q: `query($v: JSON) { search(meta: $v) }`, vars: map[string]interface{}{"v": []interface{}{1, "x"}}},
 	}
 }
 
